@@ -51,15 +51,15 @@ def ordThen (a : Ordering) (b : Unit → Ordering) : Ordering :=
 /-- `ProtocolVersion::V1 … V7` as the number 1 … 7 -/
 abbrev ProtocolVersion := Nat
 
-def ProtocolVersion.parse (s : Str) : Res ProtocolVersion :=
+def ProtocolVersion.parse (s : Str) : Res Nat :=
   match lookupIdx Generated.protocolVersionNames (trim s) with
   | some i => .ok (i + 1)
   | none => .err
 
-def ProtocolVersion.show (v : ProtocolVersion) : Str := nameAt Generated.protocolVersionNames (v - 1)
+def ProtocolVersion.show (v : Nat) : Str := nameAt Generated.protocolVersionNames (v - 1)
 
 /-- `required_version![…]`: maximum, `V1` for the empty list -/
-def maxVersion (vs : List ProtocolVersion) : ProtocolVersion := vs.foldl max 1
+def maxVersion (vs : List Nat) : Nat := vs.foldl max 1
 
 /-! ## ByteRange -/
 
@@ -202,7 +202,7 @@ def InStreamId.parse (s : Str) : Res InStreamId :=
   | none => .err
 def InStreamId.show (i : InStreamId) : Str := nameAt Generated.inStreamIdNames i.idx
 def InStreamId.variant (i : InStreamId) : Str := nameAt Generated.inStreamIdVariants i.idx
-def InStreamId.requiredVersion (i : InStreamId) : ProtocolVersion :=
+def InStreamId.requiredVersion (i : InStreamId) : Nat :=
   if Generated.inStreamIdV1Variants.contains (Generated.inStreamIdVariants.getD i.idx "") then 1 else 7
 
 inductive PlaylistType where
@@ -423,7 +423,7 @@ def DecryptionKey.show (k : DecryptionKey) : Str :=
       | some v => if !v.isDefault then ",KEYFORMATVERSIONS=".toList ++ v.show else []
       | none => [])
 
-def DecryptionKey.requiredVersion (k : DecryptionKey) : ProtocolVersion :=
+def DecryptionKey.requiredVersion (k : DecryptionKey) : Nat :=
   if k.format.isSome || k.versions.isSome then 5
   else if k.iv.isSome then 2 else 1
 
